@@ -145,7 +145,9 @@ pub fn check_stream(c: &StreamCase) -> Result<(), String> {
     }
     let mut reference: Option<Vec<(String, Result<String, ()>)>> = None;
     // C07's query clause is scoped to files whose section header table is absent or non-empty
-    let in_scope = match ElfBytes::<AnyEndian>::minimal_parse(b) { Ok(e) => e.section_headers().map_or(true, |t| t.len() > 0), Err(_) => true };
+    // ... and to sections not flagged SHF_COMPRESSED: a file in which any section header (as the slice parser sees the table) carries the flag is left to the
+    // header-level clauses (a corruption or a bit flip can set the flag on any section, e.g. on .dynamic)
+    let in_scope = match ElfBytes::<AnyEndian>::minimal_parse(b) { Ok(e) => e.section_headers().map_or(true, |t| t.len() > 0 && t.iter().all(|s| s.sh_flags & elf::abi::SHF_COMPRESSED as u64 == 0)), Err(_) => true };
     if let (Some(sl), Ok(s), true) = (&slice, st.as_mut(), in_scope) {
         let got = stream_answers(s);
         if sl.len() != got.len() { return Err(format!("C07: the two parsers see different tables (query lists differ: {} vs {})", sl.len(), got.len())); }
@@ -298,4 +300,16 @@ pub fn enumerate(n: usize, seed: u64) -> Vec<StreamCase> {
         out.push(StreamCase { file: f, cut, fail_at, short_read: kind == 1, early_eof: kind == 2 });
     }
     out
+}
+
+/// a second family for the stream comparison: the complete small objects of c01_oracle (both classes, both byte orders, every
+/// section kind, boundary-value corruptions; no compressed section), each with a cut point and at most one injected fault
+pub fn enumerate_x(n: usize, seed: u64) -> Vec<StreamCase> {
+    let mut r = Lcg(seed ^ 0x57e); 
+    crate::c01_oracle::enumerate_files(n, seed, false).into_iter().map(|fc| {
+        let len = fc.file.len();
+        let cut = if r.next(4) == 0 { r.next(len as u64 + 1) as usize } else { len };
+        let fail_at = if r.next(3) == 0 { 1 + r.next(40) as usize } else { 0 };
+        StreamCase { file: fc.file, cut, fail_at, short_read: r.next(2) == 0, early_eof: r.next(3) == 0 }
+    }).collect()
 }
